@@ -167,6 +167,10 @@ def record(src):
             try:
                 model = [[DontCare if v == 2 else bool(v) for v in t] for t in mt]
                 res = db.get_by_raw_truth_table_model(model)
+                if sum(map(sum, mt)) % 2 == 0:
+                    # the caller looks the SAME model object up again (its table must not have been touched)
+                    res = db.get_by_raw_truth_table_model(model)
+                    case['asked_twice'] = True
                 if res is not None:
                     case['found'] = True
                     case['res'] = project(res)
